@@ -207,6 +207,59 @@ class EditedModelSurface(core.Surface):
         return bool(action_members(x["template"])) or bool(action_members(x["template2"]))
 
 
+def scramble(obj, depth=0):
+    """edit, in place, every mutable container reachable from a model (dict: one more key; list: one more member)"""
+    from pydantic import BaseModel
+    if depth > 40:
+        return
+    if isinstance(obj, BaseModel):
+        for name in list(type(obj).model_fields) + list((obj.__pydantic_extra__ or {})):
+            scramble(getattr(obj, name, None), depth + 1)
+    elif isinstance(obj, dict):
+        for v in list(obj.values()):
+            scramble(v, depth + 1)
+        obj["__edited_by_the_caller__"] = "x"
+    elif isinstance(obj, list):
+        for v in list(obj):
+            scramble(v, depth + 1)
+        obj.append("__edited_by_the_caller__")
+
+
+class ResultEditedSurface(core.Surface):
+    """history: expand a model, let the caller EDIT THE RESULT it was handed (every dict / list reachable from it, e.g. Metadata,
+    UpdatePolicy, generic properties), then expand the untouched original again and an equal template parsed afresh: both must
+    still be the expansion of the original (added after seeded change C10-r3m1: a content-keyed cache handing out shallow copies)"""
+    name = "e = m.expand_actions(); edit e in place; m.expand_actions(); parse(t).expand_actions()"
+    theorem = "C10_frame / C10_other_sections (the result is a function of the receiver's content only, and a new object)"
+    frozen = frozenset({"resolve"})
+
+    def impl(self, x):
+        def run():
+            m = parse_model(x)
+            e1 = m.expand_actions()
+            scramble(e1)
+            e2 = m.expand_actions()
+            e3 = parse_model(x).expand_actions()
+            return {"again": to_wire(e2.model_dump()), "fresh": to_wire(e3.model_dump()), "classes": classes(e2)}
+        return core.impl_call(run)
+
+    def model(self, rn, x):
+        try:
+            m = parse_model(x)
+            d = to_wire(m.model_dump())
+            cl = classes(m)
+        except Exception:
+            return UNDEF
+        out = rn.call(1001, d, sample=False)
+        return ("OK", {"again": out, "fresh": out, "classes": cl})
+
+    def tags(self, x):
+        return template_tags(x["template"]) | {"result-edited"}
+
+    def nontrivial(self, x, i, m):
+        return True
+
+
 class TwiceSurface(core.Surface):
     name = "expand_actions() twice vs once"
     theorem = "C10_idempotent_action / C10_idempotent_tree / C10_idempotent_no_notaction"
@@ -276,7 +329,8 @@ def big_free(t):
 
 
 MODEL, TWICE, WALK, EDITED = ExpandModelSurface(), TwiceSurface(), WalkSurface(), EditedModelSurface()
-SURFACES = {s.name: s for s in (MODEL, TWICE, WALK, EDITED)}
+RESULT_EDITED = ResultEditedSurface()
+SURFACES = {s.name: s for s in (MODEL, TWICE, WALK, EDITED, RESULT_EDITED)}
 
 
 def prepare(rn):
@@ -485,12 +539,16 @@ def cases(rng, tier, shard, nshards):
     if shard == 0:
         yield from corpus()
     n = {"quick": 200, "thorough": 1100}[tier]
+    for _ in range(6):
+        yield RESULT_EDITED, {"template": gen_template(rng, cat, small=True), "resolve": rng.random() < 0.5}
     for _ in range(4):      # the history surface first: it must not depend on how far the time budget lets the stream run
         yield EDITED, {"template": gen_template(rng, cat, small=True), "template2": gen_template(rng, cat, small=True),
                        "resolve": rng.random() < 0.3, "drop": rng.random() < 0.5}
     for k in range(n):
         r = k % 8
-        if r == 3:
+        if r == 3 and k % 16 == 3:
+            yield RESULT_EDITED, {"template": gen_template(rng, cat, small=True), "resolve": rng.random() < 0.5}
+        elif r == 3:
             yield EDITED, {"template": gen_template(rng, cat, small=True), "template2": gen_template(rng, cat, small=True),
                            "resolve": rng.random() < 0.3, "drop": rng.random() < 0.5}
         elif r in (0, 1, 2):
